@@ -1740,6 +1740,8 @@ def r12(ctx):
 
 
 def run(ctx):
+    r18(ctx)
+    r17(ctx)
     r16(ctx)
     r15(ctx)
     r14(ctx)
@@ -1995,15 +1997,107 @@ def r16(ctx):
         if not cands:
             continue
         f = cands[0]
-        all_calls = [c for c in ast.walk(f.node) if isinstance(c, ast.Call)]
-        narrowed = [c for c in all_calls if isinstance(c.func, ast.Attribute) and c.func.attr == "data"]
-        helper = [c for c in all_calls if isinstance(c.func, ast.Name) and any(
-            isinstance(x, ast.Call) and isinstance(x.func, ast.Attribute) and x.func.attr == "data"
-            for g in repo.funcs.get(c.func.id, []) if g.module is f.module for x in walk(g.node))]
-        if helper:
-            g = [g for g in repo.funcs.get(helper[0].func.id, []) if g.module is f.module][0]
-            narrowed = [c for c in ast.walk(g.node) if isinstance(c, ast.Call) and isinstance(c.func, ast.Attribute) and c.func.attr == "data"]
+        # the factory itself plus every same-module function / class it refers to by name (helpers handed to partial(),
+        # callable classes, nested closures), two levels deep
+        nodes, seen_n, frontier = [f.node], {f.name}, [f.node]
+        for _ in range(2):
+            nxt = []
+            for nd in frontier:
+                for x in ast.walk(nd):
+                    nm = x.id if isinstance(x, ast.Name) else None
+                    if nm and nm not in seen_n:
+                        for g in repo.funcs.get(nm, []):
+                            if g.module is f.module and g.cls is None and g.parent_fn is None:
+                                seen_n.add(nm)
+                                nodes.append(g.node)
+                                nxt.append(g.node)
+                        for ci_ in repo.classes.get(nm, []):
+                            if ci_.module is f.module:
+                                seen_n.add(nm)
+                                nodes.append(ci_.node)
+                                nxt.append(ci_.node)
+            frontier = nxt
+        narrowed = [c for nd in nodes for c in ast.walk(nd) if isinstance(c, ast.Call) and isinstance(c.func, ast.Attribute)
+                    and c.func.attr == "data"]
         ok = bool(narrowed) and all(c.args or c.keywords for c in narrowed)
         ctx.ob("C01.R16", f"{fname}: a TupleCoord value is narrowed through data(<needed components>)", ok, f.where,
                "the packer takes the full component tuple (`.data()`) and slices it: the sign normalisation of the "
                "three-component form is bypassed")
+
+
+def r17(ctx):
+    """Packing a str adds exactly one NUL terminator (_pack_string), so the string view of a Variable field may remove at
+    most one: JankStringyBytes - what the reader returns for fields that are neither classified text nor binary - compares
+    equal to a str through __str__, and an rstrip() there makes 'bye\\x00' decode to a value unequal to what was encoded
+    (D52).  Also: the tuple-coord packers never slice a raw sequence - a plain (x, y, z, w) goes through the coord type."""
+    repo = ctx.repo
+    ctx.rule("C01.R17", "string view of stringy bytes removes at most the one terminator packing adds; tuple-coord packers narrow "
+                        "plain sequences through the coord type, never by slicing them")
+    jc = repo.cls("JankStringyBytes", "hippolyzer/lib/base/datatypes.py")
+    sf = repo.lookup_method(jc, "__str__")
+    ctx.require(sf is not None, "C01.R17: JankStringyBytes.__str__ vanished")
+    greedy = [c for c in ast.walk(sf.node) if isinstance(c, ast.Call) and isinstance(c.func, ast.Attribute)
+              and c.func.attr in ("rstrip", "strip", "lstrip", "replace", "split", "partition", "rpartition")]
+    ctx.ob("C01.R17", "JankStringyBytes.__str__ removes at most one trailing NUL", not greedy,
+           ctx.w(sf, greedy[0]) if greedy else sf.where,
+           f"`{norm(greedy[0])[:60]}` removes every trailing NUL (or cuts at one): _pack_string adds exactly one, so a str ending in NUL "
+           f"written to an unclassified Variable field decodes to a value that is != the str that was encoded" if greedy else "")
+    for fname in ("_make_tuplecoord_spec", "_make_llsd_tuplecoord_spec"):
+        cands = [g for g in repo.funcs.get(fname, []) if g.module.rel == PACK]
+        if not cands:
+            continue
+        f = cands[0]
+        nodes = [f.node] + [g.node for c in ast.walk(f.node) if isinstance(c, ast.Call) and isinstance(c.func, ast.Name)
+                            for g in repo.funcs.get(c.func.id, []) if g.module is f.module and g.cls is None]
+        raw_slices = []
+        for nd in nodes:
+            for sub in ast.walk(nd):
+                if isinstance(sub, ast.Subscript) and isinstance(sub.slice, ast.Slice) and isinstance(sub.value, ast.Name):
+                    # a slice of a bare name: fine only if that name was (re)bound from a .data(...) call / coord construction on every path
+                    nm = sub.value.id
+                    binds = [s_ for s_ in stores(nd) if s_.kind == "assign" and s_.path == nm and s_.value is not None]
+                    from_coord = binds and all(
+                        (isinstance(b.value, ast.Call) and ((isinstance(b.value.func, ast.Attribute) and b.value.func.attr == "data")
+                                                            or ap(b.value.func) in ("typ", "coord_cls", "cls")))
+                        for b in binds)
+                    unconditional = any(not [c for c in conditions(b.node, nd) if c.kind in ("if", "early-exit")] for b in binds)
+                    if not (from_coord and unconditional):
+                        raw_slices.append(sub)
+        ctx.ob("C01.R17", f"{fname}: no raw sequence is sliced to the needed components", not raw_slices,
+               ctx.w(f, raw_slices[0]) if raw_slices else f.where,
+               f"`{norm(raw_slices[0])}` takes the leading components of whatever was passed in: for a plain (x, y, z, w) with negative w "
+               f"the sign normalisation of the coord type is bypassed and the value decodes as a different rotation" if raw_slices else "")
+
+
+def r18(ctx):
+    """The reader refuses zero-coded bodies that expand beyond a fixed cap (zero_code_expand).  The writer zero-codes any
+    body whose message carries the flag, whatever its size: a template-conformant message with enough blocks is encoded
+    into a datagram its own reader rejects.  Necessary condition for the round trip over the whole quantified domain: the
+    writer knows the same bound (refuses such a body, or sends it without zero-coding)."""
+    repo = ctx.repo
+    ctx.rule("C01.R18", "the writer never zero-codes a body the reader's expansion cap rejects: the cap constant of zero_code_expand "
+                        "has a counterpart on the writer's side")
+    ze = repo.fn("UDPMessageDeserializer.zero_code_expand")
+    ev = ConstEval(repo, ze.module)
+    caps = set()
+    for g in class_methods_reachable(repo, ze, depth=1):
+        for cmp_ in [n for n in walk(g.node) if isinstance(n, ast.Compare) and len(n.ops) == 1 and isinstance(n.ops[0], (ast.Gt, ast.GtE))]:
+            if isinstance(cmp_.left, ast.Call) and ap(cmp_.left.func) == "len" or \
+                    (isinstance(cmp_.left, ast.BinOp) and any(isinstance(x, ast.Call) and ap(x.func) == "len" for x in ast.walk(cmp_.left))):
+                v = ev.ev(cmp_.comparators[0])
+                if isinstance(v, int) and v > 255:
+                    caps.add(v)
+    ctx.require(len(caps) >= 1, "C01.R18: no expansion cap found in zero_code_expand (C03.R1 decides boundedness)")
+    sf = repo.fn("UDPMessageSerializer.serialize")
+    evw = ConstEval(repo, sf.module)
+    found = False
+    for g in class_methods_reachable(repo, sf, depth=3):
+        for cmp_ in [n for n in walk(g.node) if isinstance(n, ast.Compare)]:
+            for side in [cmp_.left] + list(cmp_.comparators):
+                v = evw.ev(side)
+                if isinstance(v, int) and v in caps:
+                    found = True
+    ctx.ob("C01.R18", "serialize: a body beyond the reader's zero-coding cap is refused or sent un-coded", found, sf.where,
+           f"zero_code_expand refuses anything that expands beyond {sorted(caps)} bytes, the writer zero-codes bodies of any size: "
+           f"e.g. MultipleObjectUpdate with 255 ObjectData blocks of 60 bytes and the ZEROCODED flag is encoded into a datagram "
+           f"that raises 'Unreasonably large zerocoded message' when decoded")
